@@ -248,8 +248,8 @@ def fifo_discipline(ctx, bodies):
     INS = {"push_back", "push_front", "push", "insert", "extend"}
     REM = {"pop_back", "pop_front", "pop", "pop_first", "pop_last", "remove", "swap_remove", "take", "drain"}
     OTHER = {"swap", "rotate_left", "rotate_right", "make_contiguous", "retain", "truncate", "sort", "reverse"}
+    from ..paths import Origins
     for body_fn in bodies:
-        from ..paths import Origins
         org = Origins(body_fn)
         for bi, t in body_fn.calls():
             d = t.callee_decl() or ""
@@ -263,6 +263,29 @@ def fifo_discipline(ctx, bodies):
                 continue   # containers of self / other are not the pending queue
             key = body_fn.key + ":" + repr(o)
             ops.setdefault(key, []).append((nm, d.split("::")[2] if d.count("::") >= 3 else d, t.span))
+    # enqueue and dequeue are decided by INDEPENDENT tests of the visited slot (a slot can both announce a later run and start an
+    # earlier one): the dequeue site must not sit under the negation of the enqueue site's own test, nor the other way round
+    from ..guards import atomic_facts
+    for body_fn in bodies:
+        tbq = TermBuilder(body_fn, ctx.prog)
+        org = Origins(body_fn)
+        sites = {"in": [], "out": []}
+        for bi, t in body_fn.calls():
+            nm = t.callee_name()
+            if nm in INS | REM and t.args and t.args[0].place is not None and t.args[0].place.is_local():
+                o = org.of_local(t.args[0].place.local)
+                if o is not None and o.root[0] == "local" and (t.callee_decl() or "").startswith("std::collections::"):
+                    heads = [h for h in body_fn.loop_heads() if bi in body_fn.natural_loop(h)]
+                    if len(heads) >= 2:      # inside the cluster walk (nested in the slot loop)
+                        sites["in" if nm in INS else "out"].append((bi, t))
+        for bi_in, t_in in sites["in"]:
+            f_in = {repr(c): tr for c, tr in atomic_facts(body_fn, ctx.prog, bi_in, tbq)}
+            for bi_out, t_out in sites["out"]:
+                clash = [(c, tr) for c, tr in atomic_facts(body_fn, ctx.prog, bi_out, tbq) if f_in.get(repr(c)) is (not tr)]
+                ctx.check(not clash, "R06-quotient-fifo", "%s:independent-tests" % qu.key, t_out.span,
+                          "the dequeue of a run quotient does not depend on the outcome of the enqueue test of the same slot",
+                          "a run quotient is dequeued only when `%s` is %s, the opposite of the test under which one is enqueued: a slot that both announces a later run and starts an earlier one enqueues without dequeuing, and every following run of the cluster is re-inserted under the previous quotient"
+                          % (fmt(clash[0][0])[:100] if clash else "", clash[0][1] if clash else ""))
     n = 0
     for key, lst in sorted(ops.items()):
         names = {x[0] for x in lst}
